@@ -85,6 +85,9 @@ class BasicConverter:
         if not data:
             return ([], {})
         loaded: dict[str, Any] = json.loads(data)
+        for name, default in (*self.args.items(), *self.kwargs.items()):
+            if default is inspect.Parameter.empty and name not in loaded:
+                raise TypeError(f"Missing required argument: '{name}'.")
         args = [loaded.pop(name, self.args[name]) for name in self.args]
         kwargs = {name: loaded.pop(name, self.kwargs[name]) for name in self.kwargs}
         if self.all_kwargs:
